@@ -64,9 +64,12 @@ inline void reset_trace() { g().nevents = 0; g().ehash = 0; g().ndelays = 0; }
 
 inline void off() { g().mode = OFF; }
 
+inline void new_thread_epoch() { t_index = -1; }
+
 inline void jitter(uint64_t seed, double prob, int max_us, uint32_t pointMask = 0)
 {
 	G& s = g();
+	t_index = -1;
 	s.seed = seed; s.prob = prob; s.max_us = max_us; s.pointMask = pointMask; s.nextIndex = 0;
 	reset_trace();
 	s.mode = JITTER;
@@ -173,6 +176,10 @@ inline void point(int id, const volatile void* obj)
 	if (t_index < 0) { t_index = s.nextIndex++; t_count = 0; }
 	uint64_t k = ++t_count;
 	s.nevents++;
+	{   // order-dependent hash of the observed (thread, point) sequence = which interleaving of hook events happened
+		uint64_t old = s.ehash.load(), nw;
+		do nw = mix64(old, (uint64_t)t_index * 64 + id); while (!s.ehash.compare_exchange_weak(old, nw));
+	}
 	if (s.pointMask && !(s.pointMask & (1u << id))) return;
 	uint64_t h = mix64(mix64(s.seed, (uint64_t)id * 1000003 + t_index), k);
 	double u = (h >> 11) * (1.0 / 9007199254740992.0);
